@@ -172,6 +172,20 @@ def de_sitter(H=0.3):
         Lambda=3 * H * H, features=('S', 'Lambda', 'exact-stencil'))
 
 
+def anti_de_sitter(L=2.0):
+    """Anti-de Sitter in Poincare coordinates on z > 0:
+    ds^2 = (L/z)^2 (-dt^2 + dx^2 + dy^2 + dz^2); static, K = 0, no shift,
+    no matter, Lambda = -3/L^2 < 0."""
+    return Spacetime(
+        'anti_de_sitter',
+        alpha=lambda t, x, y, z, m: L / z + 0.0 * x,
+        beta=lambda t, x, y, z, m: [0.0 * x, 0.0 * x, 0.0 * x],
+        gamma=lambda t, x, y, z, m: [(L / z) ** 2 + 0 * x, 0 * x, 0 * x,
+                                     (L / z) ** 2 + 0 * x, 0 * x,
+                                     (L / z) ** 2 + 0 * x],
+        Lambda=-3.0 / (L * L), features=('L', 'Lambda<0', 'vacuum'))
+
+
 def quick_corners():
     return [(la, sh, me, td) for la in ('L0', 'L2') for sh in ('S0', 'S3')
             for (me, td) in (('G0', 'D0'), ('G2', 'D1'))]
